@@ -112,6 +112,9 @@ def run(ctx):
                         "DateTime": ["2024-02-29", "31.12.99 23:59", "2023-01-01"], "Pattern": ["Abcz", "az"], "RegEx": ["abc1", "a"], "Decimal": ["12.50", "3.14", "0"]}[ty]
                 bad = {"Text": [], "Integer": ["x", "1.5", "99999999"], "Choice": ["RED", "nope"], "Constant": ["k"], "DateTime": ["2023-02-30", "x"],
                        "Pattern": ["Abc", "zA"], "RegEx": ["1abc", "!"], "Decimal": ["1,5", "abc", "99999"]}[ty]
+                if ty == "DateTime" and "ss" in rule:
+                    # a rule with date and time: midnight is a time like any other, in every format
+                    good = ["2024-02-29 00:00:00", "2024-02-29 12:30:15", "1999-12-31 00:00:00"]
                 fields.append({"name": "f%d" % k, "type": ty, "rule": rule, "length": length, "empty": rnd.random() < 0.3 and ty != "Constant", "good": good, "bad": bad})
             table = []
             for _ in range(rnd.randint(1, 6)):
